@@ -19,7 +19,7 @@ WORKER_BASE = int(os.environ.get("VERIF_WORKER_BASE", "0"))
 class Harness:
     def __init__(self, name, pkg, prop, tier="quick", mem=6, timeout=600, memsafe=False,
                  desc="", bounds="", functions=(), stubs=(), assumes=(), covers=(),
-                 known=None, extra=(), features=None, unwindset=None, group=False):
+                 known=None, extra=(), features=None, unwindset=None, group=False, also=(), quick_for=None):
         self.name = name
         self.pkg = pkg
         self.prop = prop
@@ -37,6 +37,8 @@ class Harness:
         self.extra = list(extra)
         self.features = features
         self.unwindset = unwindset
+        self.also = tuple(also)   # further properties this harness also decides
+        self.quick_for = quick_for  # None: tier applies to all props; else set of props for which it is in the quick tier
         self.group = group        # name is a prefix: one cargo-kani invocation runs every harness matching it
 
 
